@@ -387,7 +387,7 @@ def expected_state(ct, tab, resn, names, first, last, kind_hint=None):
 
 def input_residues(case, tab):
     """Residues of the input by the independent column read: [(chain, [(resn, names set, records)])]."""
-    sl = c07.slicer(case["text"])
+    sl = e2e_clean.slicer(case["text"])
     if sl is None:
         return None
     kept = sl[0]
@@ -483,7 +483,7 @@ def search_case(ctx, case, real, tab, ct, dat):
         written.setdefault((a["chain"], a["seq"], a["ic"]), []).append(a)
     missed = {(s, n) for s, n in real[2]}
     in_names = {}
-    sl0 = c07.slicer(case["text"])
+    sl0 = e2e_clean.slicer(case["text"])
     if sl0 is not None:
         for d in sl0[0]:
             in_names.setdefault((d["seq"], d["ic"]), set()).add(d["name"])
@@ -517,7 +517,7 @@ def search_case(ctx, case, real, tab, ct, dat):
                     return
     # every coordinate record of the input (independent column read) is written or reported
     # missing - up to the alias tables and the 5TERM removal of set_termini
-    sl = c07.slicer(case["text"])
+    sl = e2e_clean.slicer(case["text"])
     if sl is not None:
         kept = sl[0]
         if case["dropw"]:
